@@ -23,45 +23,110 @@ from .model import names_in, unparse
 Fact = tuple[bool, str]
 
 
-@dataclass(frozen=True)
+MAX_PARTS = 8  # trace partitioning: a state is a small set of alternatives (must, may); beyond this they are merged
+
+
 class State:
-    must: frozenset
-    may: frozenset
+    """Disjunction of at most MAX_PARTS alternatives, each a pair (must facts, may events).
+
+    `.must` (facts common to all alternatives) and `.may` (events of any alternative) give the classic view; keeping the
+    alternatives apart lets a later test discard the ones it contradicts (e.g. `x = None` in a handler followed by
+    `if x is None: return None`), which a plain intersection would forget."""
+
+    __slots__ = ("parts", "_must", "_may")
+
+    def __init__(self, must=None, may=None, parts=None):
+        if parts is None:
+            parts = frozenset({(frozenset(must or ()), frozenset(may or ()))})
+        self.parts = parts
+        self._must = None
+        self._may = None
+
+    @property
+    def must(self) -> frozenset:
+        if self._must is None:
+            it = iter(self.parts)
+            m = next(it)[0]
+            for p in it:
+                m = m & p[0]
+            self._must = m
+        return self._must
+
+    @property
+    def may(self) -> frozenset:
+        if self._may is None:
+            m = frozenset()
+            for p in self.parts:
+                m = m | p[1]
+            self._may = m
+        return self._may
+
+    def __eq__(self, other):
+        return isinstance(other, State) and other.parts == self.parts
+
+    def __hash__(self):
+        return hash(self.parts)
 
     def add(self, facts) -> Optional["State"]:
-        """Add facts; None if they contradict what already holds (branch infeasible)."""
-        m = set(self.must)
-        for pol, txt in _closure(facts):
-            if (not pol, txt) in m:
-                return None
-            m.add((pol, txt))
-        return State(frozenset(m), self.may)
+        """Add facts; alternatives they contradict are dropped; None if none is left (branch infeasible)."""
+        facts = _closure(facts)
+        out = set()
+        for must, may in self.parts:
+            m = set(must)
+            ok = True
+            for pol, txt in facts:
+                if (not pol, txt) in m:
+                    ok = False
+                    break
+                m.add((pol, txt))
+            if ok:
+                out.add((frozenset(m), may))
+        return State(parts=frozenset(out)) if out else None
 
     def event(self, name: str) -> "State":
-        return State(self.must | {(True, name)}, self.may | {name})
+        return State(parts=frozenset((must | {(True, name)}, may | {name}) for must, may in self.parts))
+
+    def with_extra(self, must_extra=frozenset(), may_extra=frozenset()) -> "State":
+        return State(parts=frozenset((must | must_extra, may | may_extra) for must, may in self.parts))
 
     def kill_names(self, names: set[str], cache: dict) -> "State":
         if not names:
             return self
-        keep = []
-        for f in self.must:
-            txt = f[1]
-            ns = cache.get(txt)
-            if ns is None:
-                try:
-                    if txt.startswith("ITER:"):
-                        ns = names_in(ast.parse(txt.split(":", 2)[1], mode="eval"))
-                    elif txt.startswith(("EV:", "MATCH:")):
+        out = set()
+        for must, may in self.parts:
+            keep = []
+            for f in must:
+                txt = f[1]
+                ns = cache.get(txt)
+                if ns is None:
+                    try:
+                        if txt.startswith("ITER:"):
+                            ns = names_in(ast.parse(txt.split(":", 2)[1], mode="eval"))
+                        elif txt.startswith(("EV:", "MATCH:")):
+                            ns = set()
+                        else:
+                            ns = names_in(ast.parse(txt, mode="eval"))
+                    except SyntaxError:
                         ns = set()
-                    else:
-                        ns = names_in(ast.parse(txt, mode="eval"))
-                except SyntaxError:
-                    ns = set()
-                cache[txt] = ns
-            if ns & names:
-                continue
-            keep.append(f)
-        return State(frozenset(keep), self.may)
+                    cache[txt] = ns
+                if ns & names:
+                    continue
+                keep.append(f)
+            out.add((frozenset(keep), may))
+        return State(parts=frozenset(out))
+
+    def collapsed(self) -> "State":
+        """One alternative: common facts (+ one composite disjunction where two sides differ), all events."""
+        if len(self.parts) == 1:
+            return self
+        ps = sorted(self.parts, key=lambda p: (sorted(p[0]), sorted(p[1])))
+        must, may = ps[0]
+        for m2, y2 in ps[1:]:
+            common = must & m2
+            disj = _disjunction(must - common, m2 - common)
+            must = common | disj if disj else common
+            may = may | y2
+        return State(must, may)
 
 
 _IDENT = re.compile(r"^[A-Za-z_][A-Za-z_0-9.]*$")
@@ -78,18 +143,18 @@ def _closure(facts):
     return out
 
 
-def join(states: list[Optional[State]]) -> Optional[State]:
+def join(states: list[Optional["State"]], collapse: bool = False) -> Optional["State"]:
     live = [s for s in states if s is not None]
     if not live:
         return None
-    must = live[0].must
-    may = live[0].may
-    for s in live[1:]:
-        common = must & s.must
-        disj = _disjunction(must - common, s.must - common)
-        must = common | disj if disj else common
-        may = may | s.may
-    return State(must, may)
+    parts = set()
+    for s in live:
+        parts |= s.parts
+    # an alternative subsumed by a weaker one with the same events adds nothing
+    st = State(parts=frozenset(parts))
+    if collapse or len(parts) > MAX_PARTS:
+        return st.collapsed()
+    return st
 
 
 def _plain(fact) -> bool:
@@ -229,9 +294,11 @@ class FlowAnalysis:
         event_of: Callable[[ast.Call], Optional[str]] | None = None,
         entry: frozenset | set | None = None,
         body: list[ast.stmt] | None = None,
+        node_event: Callable[[ast.AST], Optional[str]] | None = None,
     ):
         self.fn_node = fn_node
         self.event_of = event_of
+        self.node_event = node_event  # events for non-call nodes (currently: entry of an except handler)
         self.facts_at: dict[int, State] = {}
         self.exits: list[Exit] = []
         self._kill_cache: dict = {}
@@ -313,7 +380,7 @@ class FlowAnalysis:
                 self._expr(e.elt, cur)
             # the body may run zero times: state after = state before (+ may-events from inside)
             inner = cur
-            return State(st.must, inner.may if inner is not None else st.may)
+            return st.with_extra(may_extra=inner.may) if inner is not None else st
         if isinstance(e, ast.Lambda):
             # body evaluated later; record with current facts but do not propagate
             self._expr(e.body, st)
@@ -502,7 +569,7 @@ class FlowAnalysis:
                 body_in = body_in.add({(True, f"ITER:{unparse(target)}:{unparse(s.iter)}")})
             end = self._block(s.body, body_in)
             self._loop_stack.pop()
-            new_head = join([st, end] + frame["continue"])
+            new_head = join([st, end] + frame["continue"], collapse=True)
             if new_head == head:
                 break
             head = new_head
@@ -524,7 +591,7 @@ class FlowAnalysis:
         body_end = self._block(s.body, st)
         self._try_stack.pop()
         # any point of the body may raise: handler entry = join of all states seen in the body
-        h_in = join(frame)
+        h_in = join(frame, collapse=True)
         outs = []
         if s.orelse:
             outs.append(self._block(s.orelse, body_end))
@@ -538,6 +605,10 @@ class FlowAnalysis:
                 self._rec(h, hs)
                 if h.type is not None:
                     self._expr(h.type, hs)
+                if self.node_event is not None:
+                    evn = self.node_event(h)
+                    if evn:
+                        hs = hs.event(evn)
             outs.append(self._block(h.body, hs))
         after = join(outs)
         if s.finalbody:
@@ -548,7 +619,7 @@ class FlowAnalysis:
                 return None
             if fin_out is None:
                 return None
-            return State(after.must | (fin_out.must - (fin_in.must if fin_in else frozenset())), after.may | fin_out.may)
+            return after.with_extra(fin_out.must - (fin_in.must if fin_in else frozenset()), fin_out.may)
         return after
 
 
